@@ -52,6 +52,8 @@ server.max-keep-alive-requests = 1000
 server.max-keep-alive-idle = 30
 server.max-request-size = 256
 index-file.names = ("index.html")
+etag.use-inode = "disable"
+cgi.local-redir = "enable"
 url.access-deny = ("~", ".inc")
 static-file.exclude-extensions = (".pl", ".shtml")
 cgi.assign = (".pl" => "/usr/bin/perl")
@@ -124,6 +126,7 @@ my $body = "";
 if (($ENV{CONTENT_LENGTH} || 0) > 0) { read(STDIN, $body, $ENV{CONTENT_LENGTH}); }
 if (($ENV{QUERY_STRING} || "") =~ /(^|&)status=(\d+)/) { print "Status: $2\r\n"; }
 if (($ENV{QUERY_STRING} || "") =~ /(^|&)hdr=(\w+)/) { print "X-Cgi-Hdr: $2\r\n"; }
+if (($ENV{QUERY_STRING} || "") =~ /(^|&)lredir=1/) { print "Location: /files/b.txt\r\n\r\n"; exit 0; }
 print "Content-Type: text/plain\r\n\r\n";
 foreach my $k (sort keys %ENV) { my $v = $ENV{$k}; $v =~ s/([^ -~]|%)/sprintf("%%%02x", ord($1))/ge; print "$k=$v\n"; }
 print "BODY=", unpack("H*", $body), "\n";
@@ -314,6 +317,9 @@ PROBES = [
     Req("GET", "/files/b.txt", [("Cookie", "deny=1")], tag="GET b.txt cookie-deny"),
     Req("GET", "/files/%61.txt?a=b?c"),
     Req("GET", "/files/./sub/../b.txt"),
+    Req("GET", "/files/sub/c.css"),
+    Req("GET", "/cgi/env.pl?lredir=1"),
+    Req("GET", "/files/page.html", [("If-None-Match", "*")], tag="GET page.html inm-star"),
 ]
 
 # history-only requests (never compared themselves; they dirty the connection / request objects)
@@ -542,8 +548,8 @@ class H2Client(e2e.H2Conn):
 # observations: normalised (status, headers, body) of the probe's response
 # =====================================================================================
 DROP_ALWAYS = {b"date", b"connection", b"keep-alive", b"expires"}
-DROP_CROSS = {b"accept-ranges", b"cache-control", b"transfer-encoding"}
-ENV_DROP = {"REMOTE_PORT", "HTTP_CONNECTION"}
+DROP_CROSS = {b"accept-ranges", b"cache-control", b"transfer-encoding", b"priority"}
+ENV_DROP = {"REMOTE_PORT", "HTTP_CONNECTION", "HTTP_UPGRADE", "HTTP_HTTP2_SETTINGS"}
 ENV_DROP_CROSS = {"SERVER_PROTOCOL"}
 
 
@@ -787,9 +793,10 @@ def h2_case(srv, case, log):
         time.sleep(0.02)
         c = H2Client(srv.port)
     elif mode == "h2c":
-        c = h2_upgrade(srv, hist[0] if hist else PROBES[4], log)
+        first = hist[0] if hist and hist[0].body is None and hist[0].raw_h1 is None else PROBES[4]
+        c = h2_upgrade(srv, first, log)
         c.wait([1])
-        c = h2_history(srv, hist[1:], log, c)
+        c = h2_history(srv, hist[1:] if first is not PROBES[4] else hist, log, c)
     elif mode == "h2c-probe":
         c = h2_upgrade(srv, q, log)
         st = c.wait([1])
@@ -1234,3 +1241,415 @@ def run_inproc(ctx):
             rp = keep
     ctx.differential("parse-into-recycled(h_reset)", [exe], "server", rp, oracle, reset_classify)
     return exe
+
+
+# =====================================================================================
+# end-to-end metamorphic stream
+# =====================================================================================
+H1_MODES = ["keepalive", "recycled", "pipelined", "otherconn"]
+H2_MODES = ["sequential", "recycled", "concurrent", "burst", "otherconn", "h2c"]
+MUST_ANSWER = {"alone", "segmented", "keepalive", "recycled", "otherconn", "sequential", "h2c", "h2c-probe"}
+ALL_REQS = PROBES + HIST_ONLY
+
+
+def case_desc(case):
+    return {"ver": ["HTTP/1.0", "HTTP/1.1", "HTTP/2"][case["ver"]], "mode": case["mode"],
+            "history": [h.tag for h in case["hist"]], "probe": case["probe"].tag,
+            "hist_idx": [ALL_REQS.index(h) for h in case["hist"]], "probe_idx": PROBES.index(case["probe"]),
+            "nseg": case.get("nseg", 1)}
+
+
+def hist_kind(q):
+    if q.abort is not None:
+        return "aborted"
+    if q.raw_h1 is not None:
+        return "malformed"
+    if q.body is not None:
+        return "bodied"
+    if any(k.lower() == "range" for k, _ in q.headers):
+        return "ranged"
+    if any(k.lower() == "authorization" for k, _ in q.headers) or q.target.startswith("/auth/"):
+        return "auth"
+    if "env.pl" in q.target:
+        return "cgi"
+    return "plain"
+
+
+def gen_cases(ctx):
+    rng = ctx.rng
+    per = 4 if ctx.quick else 66
+    kinds = {}
+    for q in ALL_REQS:
+        kinds.setdefault(hist_kind(q), []).append(q)
+    kind_names = sorted(kinds)
+    cases = []
+    k = 0
+    for pi, q in enumerate(PROBES):
+        for ver in (0, 1, 2):
+            modes = list(H1_MODES if ver < 2 else H2_MODES)
+            rng.shuffle(modes)
+            for j in range(per):
+                mode = modes[j % len(modes)]
+                n = rng.choice([1, 1, 2, 3, 4, 6])
+                hist = []
+                # every history carries one request of a rotating kind (successful / failing / bodied /
+                # ranged / authenticated / aborted / cgi) plus random others
+                hist.append(rng.choice(kinds[kind_names[k % len(kind_names)]]))
+                k += 1
+                while len(hist) < n:
+                    hist.append(rng.choice(ALL_REQS))
+                rng.shuffle(hist)
+                c = dict(ver=ver, mode=mode, hist=hist, probe=q)
+                if mode == "pipelined" and rng.random() < 0.4:
+                    c["nseg"] = rng.choice([2, 3, 7])
+                cases.append(c)
+            # one delivery-only variation per (probe, version): many TCP segments / upgraded connection
+            if ver < 2:
+                cases.append(dict(ver=ver, mode="segmented", hist=[], probe=q, nseg=rng.choice([2, 3, 5, 11])))
+            elif q.body is None and (ctx.quick is False or pi % 3 == 0):
+                cases.append(dict(ver=2, mode="h2c-probe", hist=[], probe=q))
+    if ctx.quick:
+        # the upgrade path for a few fixed probes in every run
+        for pi in (1, 25, 13):
+            cases.append(dict(ver=2, mode="h2c-probe", hist=[], probe=PROBES[pi]))
+    return cases
+
+
+# ---- modelled part of the site: what the Lean connection automaton predicts
+MODEL_HDRS = {"content-type", "content-length", "location", "allow", "etag", "www-authenticate"}
+
+
+def modelled_requests():
+    R = []
+    for t in ["/", "/files/a.txt", "/files/b.txt", "/files/empty.txt", "/files/noext", "/files/page.html", "/files/sub/",
+              "/files/sub", "/files/sub/c.css", "/files/noindex/", "/files/missing.txt", "/files/x.inc",
+              "/files/%61.txt?a=b?c", "/files/./sub/../b.txt", "/noka/k.txt", "/list", "/files/sub?x=1", "/nothere/"]:
+        R.append(Req("GET", t))
+    R += [Req("HEAD", "/files/a.txt"), Req("HEAD", "/files/missing.txt"), Req("HEAD", "/files/sub"),
+          Req("OPTIONS", "/files/a.txt"), Req("OPTIONS", "*"), Req("OPTIONS", "/files/missing.txt"),
+          Req("DELETE", "/files/a.txt"), Req("GET", "/", authority="vhost.test"),
+          Req("GET", "/files/a.txt", authority="vhost.test"), Req("GET", "/files/b.txt", [("X-Variant", "b")]),
+          Req("GET", "/files/b.txt", [("X-Variant", "c")]),
+          Req("GET", "/files/b.txt", [("If-None-Match", "\"nomatch\"")]),
+          Req("GET", "/files/page.html", [("If-None-Match", "*")]),
+          Req("HEAD", "/files/page.html", [("If-None-Match", "*")]),
+          Req("GET", "/files/b.txt", [("Connection", "close")], raw_h2=[(":method", "GET"), (":scheme", "http"),
+                                                                        (":path", "/files/b.txt"), (":authority", "c08.test")]),
+          Req("GET", "/files/a.txt", [("Cookie", "a=1"), ("Cookie", "b=2"), ("Accept", "*/*")])]
+    R += [h for h in HIST_ONLY if h.tag in ("h:bad-ctl", "h:no-host-11", "h:bad-version", "h:431", "h:unknown-method",
+                                           "h:two-cl", "h:te-gzip")]
+    return R
+
+
+def model_site_tokens(srv, etags):
+    toks = ["root=" + _hx(srv.docroot), "maxka=1000", "gextra=" + _kv([("X-Global", "g")]), "idx=" + _hx("index.html"),
+            "deny=" + _hx("~"), "deny=" + _hx(".inc"), "excl=" + _hx(".pl"), "excl=" + _hx(".shtml")]
+    ctypes = {".html": "text/html", ".txt": "text/plain", ".bin": "application/octet-stream", ".css": "text/css"}
+
+    def add_tree(base, files, urlbase):
+        dirs = {base}
+        for rel, data in files.items():
+            if len(data) > 2000:
+                continue
+            p = base + "/" + rel
+            d = os.path.dirname(p)
+            while len(d) >= len(base):
+                dirs.add(d)
+                d = os.path.dirname(d)
+            ext = os.path.splitext(rel)[1]
+            ct = ctypes.get(ext, "application/octet-stream")
+            toks.append("n=%s:f:%s:%s:%s" % (_hx(p), _hx(ct), _hx(data), _hx(etags.get(urlbase + rel, ""))))
+        for d in sorted(dirs):
+            toks.append("n=%s:d:-:-:-" % _hx(d))
+            toks.append("n=%s:d:-:-:-" % _hx(d + "/"))
+    add_tree(srv.docroot, SITE_FILES, "c08.test/")
+    add_tree(os.path.join(srv.root, "vhost"), VHOST_FILES, "vhost.test/")
+    star = "*"
+    toks.append("sc=h;%s;-;%s;*;*;%s" % (_hx("vhost.test"), _kv([("X-Vhost", "1")]), _hx(os.path.join(srv.root, "vhost"))))
+    toks.append("sc=u;%s;-;%s;*;*;*" % (_hx("/files/"), _kv([("X-Url-Files", "1")])))
+    toks.append("sc=u;%s;-;%s;*;*;*" % (_hx("/files/a"), _kv([("X-Url-A", "1")])))
+    toks.append("sc=q;%s;%s;%s;*;*;*" % (_hx("x-variant"), _hx("b"), _kv([("X-Variant-Seen", "b")])))
+    toks.append("sc=u;%s;-;*;*;0;*" % _hx("/noka/"))
+    return toks
+
+
+def real_to_model_obs(o, closed):
+    """project a real observation on what the model predicts: status,ka,body,selected headers"""
+    hs = sorted("%s=%s" % (_hx(k), _hx(v)) for k, v in o["headers"] if k in MODEL_HDRS or k.startswith("x-"))
+    body = o["body"] if isinstance(o["body"], bytes) else b"?"
+    return "%d,%s,%s,%s" % (o["status"], "0" if closed else "1", _hx(body), ";".join(hs) if hs else "-")
+
+
+def h1_sequence(srv, ver, reqs):
+    """send the requests one after another on one keep-alive connection; returns list of
+    (observation, connection-closed-after) up to the point the server closed"""
+    c = H1Client(srv.port)
+    out = []
+    try:
+        for q in reqs:
+            c.heads.append(q.is_head())
+            c.send(q.h1(ver))
+            rs, err = c.read(len(c.heads))
+            if len(rs) < len(c.heads):
+                out.append((None, True))
+                break
+            r = rs[-1]
+            cl = (e2e.hdr(r, "connection") or b"").lower()
+            closed = b"close" in cl or c.closed or (ver == 0 and b"keep-alive" not in cl)
+            o = make_obs(r["status"], r["headers"], r["body"], srv)
+            o["body"] = r["body"]
+            out.append((o, closed))
+            if closed:
+                break
+    finally:
+        c.close()
+    return out
+
+
+def h2_sequence(srv, reqs):
+    c = H2Client(srv.port)
+    out = []
+    try:
+        for q in reqs:
+            sid = c.request(q)
+            st = c.wait([sid])
+            d = st.get(sid) if "error" not in st else None
+            if d is None or not [1 for k, _ in d["headers"] if k == b":status"]:
+                out.append((None, True))
+                break
+            o = h2_obs(d, srv)
+            o["body"] = d["body"]
+            out.append((o, False))
+            if c.goaway():
+                break
+    finally:
+        c.close()
+    return out
+
+
+def model_msg(q, ver):
+    if ver == 2:
+        return "1/" + _kv(q.h2_fields())
+    return _hx(q.h1(ver))
+
+
+def server_job(bd, jobs, seqs, quick):
+    """one server process: references for every probe, then its shard of cases and of modelled sequences"""
+    res = {"cases": [], "refs": {}, "seqs": [], "san": None, "error": None, "closing": {}}
+    srv = new_server(bd)
+    try:
+        with srv:
+            for pi, q in enumerate(PROBES):
+                for ver in (0, 1, 2):
+                    o, log, note = run_case(srv, dict(ver=ver, mode="alone", hist=[], probe=q))
+                    res["refs"][(pi, ver)] = (o, note)
+            for case in jobs:
+                o, log, note = run_case(srv, case)
+                res["cases"].append((case, o, log, note))
+            if seqs:
+                etags = {}
+                for host, files in (("c08.test", SITE_FILES), ("vhost.test", VHOST_FILES)):
+                    for rel in files:
+                        if len(files[rel]) > 2000:
+                            continue
+                        r = h1_sequence(srv, 1, [Req("GET", "/" + rel, authority=host)])
+                        if r and r[0][0] is not None:
+                            et = [v for k, v in r[0][0]["headers"] if k == "etag"]
+                            if et and r[0][0]["status"] == 200:
+                                etags[host + "/" + rel] = et[0]
+                site = model_site_tokens(srv, etags)
+                for ver, reqs in seqs:
+                    real = h2_sequence(srv, reqs) if ver == 2 else h1_sequence(srv, ver, reqs)
+                    line = "conn %d %s -- %s" % (2 if ver == 2 else 1, " ".join(site), " ".join(model_msg(q, ver) for q in reqs))
+                    res["seqs"].append((ver, reqs, real, line))
+            res["alive"] = srv.alive()
+        res["san"] = srv.sanitizer_report()
+        res["root"] = srv.root
+    except Exception as ex:           # server did not start / died
+        import traceback
+        res["error"] = "%r\n%s\n%s" % (ex, traceback.format_exc(), srv.logs()[-2000:])
+        res["san"] = srv.sanitizer_report() if hasattr(srv, "stderr_path") else None
+    return res
+
+
+def gen_sequences(ctx):
+    rng = ctx.rng
+    M = modelled_requests()
+    n = 40 if ctx.quick else 500
+    seqs = []
+    for ver in (0, 1, 2):
+        for q in M:                      # every modelled request alone
+            if ver == 0 and q.raw_h1 is not None:
+                continue
+            seqs.append((ver, [q]))
+        for _ in range(n):
+            k = rng.choice([2, 2, 3, 4, 6])
+            rs = [rng.choice(M) for _ in range(k)]
+            if ver == 0:
+                rs = [q for q in rs if q.raw_h1 is None] or [M[0]]
+            seqs.append((ver, rs))
+    return seqs
+
+
+def run_e2e(ctx):
+    bd, err = e2e.build_server()
+    if bd is None:
+        ctx.broken.append({"kind": "server-build", "names": ["lighttpd"], "log": (err or "")[-3000:]})
+        return
+    t0 = time.time()
+    cases = gen_cases(ctx)
+    seqs = gen_sequences(ctx)
+    nsrv = min(12, C.NCPU)
+    shards = [cases[i::nsrv] for i in range(nsrv)]
+    sshards = [seqs[i::nsrv] for i in range(nsrv)]
+    with ThreadPoolExecutor(nsrv) as ex:
+        results = list(ex.map(lambda a: server_job(bd, a[0], a[1], ctx.quick), zip(shards, sshards)))
+    ncase = nun = 0
+    for si, res in enumerate(results):
+        if res["error"]:
+            ctx.violation("e2e:server-error", "lighttpd did not survive the C08 stream",
+                          {"property": ctx.pid, "kind": "e2e-server-error", "detail": res["error"][-3000:]}, found=True)
+            continue
+        if res["san"]:
+            ctx.violation("e2e:sanitizer", "sanitizer / assertion report from lighttpd during the C08 stream",
+                          {"property": ctx.pid, "kind": "sanitizer-or-crash", "correspondence": "e2e-metamorphic",
+                           "report": res["san"][-3000:]}, found=True)
+        refs = res["refs"]
+        # (1) every probe answered alone, on every version
+        for (pi, ver), (o, note) in sorted(refs.items()):
+            ctx.evaluations += 1
+            if o is None:
+                ctx.violation("e2e:alone-unanswered:%s:%d" % (PROBES[pi].tag, ver),
+                              "no response to a request sent alone on a fresh connection",
+                              {"property": ctx.pid, "kind": "e2e-metamorphic",
+                               "case": case_desc(dict(ver=ver, mode="alone", hist=[], probe=PROBES[pi])), "note": note})
+        # (2) the same semantic request over the three protocol versions
+        for pi, q in enumerate(PROBES):
+            o0, o1, o2 = (refs[(pi, v)][0] for v in (0, 1, 2))
+            has_range = any(k.lower() in ("range", "if-range") for k, _ in q.headers)
+            pairs = [(1, 2, o1, o2)] + ([] if has_range else [(0, 1, o0, o1)])
+            for va, vb, a, b in pairs:
+                if a is None or b is None:
+                    continue
+                ctx.evaluations += 1
+                ctx.keys["cross:%s:%d" % (hist_kind(q), a["status"])] += 1
+                if obs_key(a, True) != obs_key(b, True):
+                    ctx.violation("e2e:cross-version:%s" % q.tag,
+                                  "the same request is answered differently over %s and %s: %s" % (
+                                      ["HTTP/1.0", "HTTP/1.1", "HTTP/2"][va], ["HTTP/1.0", "HTTP/1.1", "HTTP/2"][vb],
+                                      obs_diff(a, b, True)),
+                                  {"property": ctx.pid, "kind": "e2e-cross-version", "probe": q.tag,
+                                   "probe_idx": pi, "versions": [va, vb], "diff": obs_diff(a, b, True)})
+            if has_range and o0 is not None:
+                # HTTP/1.0: Range is ignored -> must equal the same request without the Range field
+                twin = [i for i, t in enumerate(PROBES) if t.method == q.method and t.target == q.target
+                        and t.authority == q.authority and not t.headers and t.body is None]
+                if twin and not any(k.lower() == "x-variant" for k, _ in q.headers):
+                    b = refs[(twin[0], 0)][0]
+                    ctx.evaluations += 1
+                    if b is not None and obs_key(o0) != obs_key(b):
+                        ctx.violation("e2e:h10-range:%s" % q.tag, "HTTP/1.0 request with Range not answered like the "
+                                      "request without it: " + obs_diff(o0, b),
+                                      {"property": ctx.pid, "kind": "e2e-cross-version", "probe": q.tag, "probe_idx": pi,
+                                       "versions": [0, 0], "diff": obs_diff(o0, b)})
+        # (3) probe after history == probe alone
+        for case, o, log, note in res["cases"]:
+            ncase += 1
+            ctx.evaluations += 1
+            pi = PROBES.index(case["probe"])
+            ref = refs[(pi, case["ver"])][0]
+            kinds = "+".join(sorted(set(hist_kind(h) for h in case["hist"]))) or "-"
+            ctx.dist["mode:%s" % case["mode"]] += 1
+            if o is None:
+                nun += 1
+                ctx.keys["meta:%d:%s:unanswered" % (case["ver"], case["mode"])] += 1
+                if case["mode"] in MUST_ANSWER and ref is not None:
+                    ctx.violation("e2e:unanswered:%s:%s" % (case["mode"], case["probe"].tag),
+                                  "request not answered (%s) although it is answered when sent alone" % note,
+                                  {"property": ctx.pid, "kind": "e2e-metamorphic", "case": case_desc(case),
+                                   "log": log, "note": note})
+                continue
+            ctx.keys["meta:%d:%s:%s:%d" % (case["ver"], case["mode"], kinds, o["status"])] += 1
+            if ref is not None and obs_key(o) != obs_key(ref):
+                ctx.violation("e2e:history:%s:%s" % (case["mode"], case["probe"].tag),
+                              "response depends on connection history (%s, %s): %s" % (
+                                  ["HTTP/1.0", "HTTP/1.1", "HTTP/2"][case["ver"]], case["mode"], obs_diff(ref, o)),
+                              {"property": ctx.pid, "kind": "e2e-metamorphic", "case": case_desc(case), "log": log,
+                               "diff": obs_diff(ref, o)})
+            if len(ctx.samples) < 6 and ncase % 97 == 1:
+                ctx.sample({"stream": "e2e-metamorphic", "case": case_desc(case), "status": o["status"]})
+    # references must also agree between server processes (first-ever connections included)
+    first = None
+    for res in results:
+        if res["error"]:
+            continue
+        if first is None:
+            first = res["refs"]
+            continue
+        for key, (o, note) in res["refs"].items():
+            a = first[key][0]
+            if a is not None and o is not None and obs_key(a) != obs_key(o):
+                ctx.violation("e2e:cross-server:%s" % PROBES[key[0]].tag,
+                              "two server processes answer the same request differently: " + obs_diff(a, o),
+                              {"property": ctx.pid, "kind": "e2e-metamorphic",
+                               "case": case_desc(dict(ver=key[1], mode="alone", hist=[], probe=PROBES[key[0]])),
+                               "diff": obs_diff(a, o)})
+    ctx.streams.append({"name": "e2e-metamorphic(real server)", "cases": ncase, "unanswered_inconclusive": nun,
+                        "servers": nsrv, "wall_s": round(time.time() - t0, 2)})
+    # (4) the Lean connection automaton against the real server on the modelled part of the site
+    lines, reals = [], []
+    for res in results:
+        for ver, reqs, real, line in res["seqs"]:
+            lines.append(line)
+            reals.append((ver, reqs, real))
+    nd = 0
+    if lines and ctx.model_ok:
+        mo, mrc, merr = C.parallel_lines([C.ltmodel_path(), "server"], lines)
+        if mrc != 0 or len(mo) != len(lines):
+            ctx.broken.append({"kind": "model-run", "names": ["server"], "log": merr[-2000:]})
+        else:
+            for line, (ver, reqs, real), m in zip(lines, reals, mo):
+                ctx.evaluations += 1
+                mparts = m.split(" | ")
+                rparts = []
+                for o, closed in real:
+                    rparts.append("none" if o is None else real_to_model_obs(o, closed))
+                mcmp = []
+                for i, mp in enumerate(mparts[:len(rparts)]):
+                    f = mp.split(",")
+                    if ver == 2 and len(f) == 4:
+                        f[1] = "1"
+                    mcmp.append(",".join(f))
+                # after the point where the connection closed the model must say "none"
+                tail_ok = all(x == "none" for x in mparts[len(rparts):])
+                ctx.keys["model:%d:%s" % (ver, "/".join(p.split(",")[0] + ("c" if p.split(",")[1:2] == ["0"] else "") for p in rparts))[:60]] += 1
+                if mcmp != rparts or not tail_ok:
+                    nd += 1
+                    if nd <= 3:
+                        bad = [i for i, (a, b) in enumerate(zip(mcmp, rparts)) if a != b]
+                        i = bad[0] if bad else len(rparts)
+                        ctx.violation("corr:e2e-model:%d:%s" % (ver, reqs[min(i, len(reqs) - 1)].tag),
+                                      "Lean connection automaton and real server disagree (request %d of the sequence)" % (i + 1),
+                                      {"property": ctx.pid, "kind": "correspondence", "correspondence": "e2e-model",
+                                       "version": ver, "sequence": [q.tag for q in reqs],
+                                       "impl_obs": rparts[i][:600] if i < len(rparts) else "(connection closed)",
+                                       "model_obs": (mcmp + mparts[len(rparts):])[i][:600] if i < len(mparts) else "(nothing)",
+                                       "input": line[:200] + "..."}, found=False)
+    ctx.streams.append({"name": "e2e-model(connection automaton vs real server)", "cases": len(lines), "disagreements": nd})
+
+
+def run(ctx):
+    run_inproc(ctx)
+    run_e2e(ctx)
+    ctx.rule = ("in-process: dirty request objects (real parser + every response-side setter) x recycling op, and "
+                "request heads parsed into recycled vs fresh objects; e2e: (history P, probe R) pairs over "
+                "HTTP/1.0/1.1/2 x delivery mode (keep-alive, pipelined, recycled connection, other connection, "
+                "sequential / concurrent / burst streams, h2c upgrade); distinct = (stream, op or version+mode, "
+                "history kinds, outcome class)")
+    ctx.assumptions += ["IPv6-literal Host values are skipped (inet_pton not modelled)",
+                        "time-dependent response fields (Date, Expires) and connection-management fields "
+                        "(Connection, Keep-Alive; REMOTE_PORT / HTTP_CONNECTION / HTTP_UPGRADE / HTTP_HTTP2_SETTINGS in the CGI "
+                        "environment: the request that carried `Upgrade: h2c` keeps those fields) are excluded "
+                        "from the comparison; Accept-Ranges / Cache-Control / Transfer-Encoding / priority and "
+                        "SERVER_PROTOCOL are excluded between protocol versions only",
+                        "Range on HTTP/1.0 is compared against the request without Range"]
